@@ -1,5 +1,5 @@
 """C19 — bounded contract check of aggregate_node_transformer on the real code.
-Contract (same text as the sidecar):  same(visit(e), agg_lower(e))  under agg_kwfree(e); plus the
+Contract (same text as the sidecar):  same(visit(e), agg_lower(e)); plus the
 semantic clause: sem(visit(e)) == sem(e) where sem gives len/Count/Sum the Python meaning and
 Max/Min the "with 0 added" meaning."""
 import ast
@@ -71,6 +71,12 @@ def exprs(depth):
                 f"({k}(b), {other}(Select(a, lambda {k}: {k} * 2)), {k}(a))",
                 f"Select(ll, lambda {k}: {other}({k})) + [{k}(a)]",
                 f"[{other}(Select(ll, lambda {k}: {other}(Select({k}, lambda {k}: {k})))), {k}(b)]"]
+    # keyword and starred arguments: another argument count, left unchanged (repaired defect: the
+    # keyword was dropped / the starred argument taken for the sequence)
+    for k in NAMES:
+        out += [f"guard({k}, lambda: {k}(a, key=1))", f"guard({k}, lambda: {k}(a, **{{'x': Sum(b)}}))",
+                f"guard({k}, lambda: {k}(*[a]))", f"guard({k}, lambda: {k}(*ll))",
+                f"guard({k}, lambda: {k}(Select(a, lambda x: Count(b)), start=Sum(b)))"]
     out += ["o.Sum(Sum(a))", "o.Count(Count(a), len(b))", "o.Max(Max(a), b=Min(b))",
             "Sum(Select(ll, lambda l: Sum(Select(l, lambda x: Max([x, 1])))))",
             "len(ll)", "Count(Select(ll, lambda l: o.Sum(l)))"]
@@ -131,8 +137,6 @@ def has_shortcut_call(n):
 def check_one(t, src, envs):
     from func_adl.ast.aggregate_shortcuts import aggregate_node_transformer
     e = parse_expr(src)
-    if not spec_agg.agg_kwfree(e):
-        return
     expected = spec_agg.agg_lower(copy.deepcopy(e))
     try:
         got = aggregate_node_transformer().visit(copy.deepcopy(e))
